@@ -578,7 +578,7 @@ Proof.
            ++ subst o. discriminate.
            ++ rewrite loop_true_exit in Ho by assumption. subst o.
               exists [p], p', rest'. repeat split. right.
-              exists [], p, j. repeat split; auto; lia.
+              exists [], p, j. repeat split; auto; try lia. simpl. now rewrite Hoo.
         -- subst oo.
            destruct (IH _ _ _ _ o Ho Hf) as (before & q & after & Hpts & Hsav & Hb).
            exists (p :: before), q, after.
@@ -615,6 +615,59 @@ Proof.
   exists before, p, after. split; [assumption|]. split; [assumption|]. exact Hb.
 Qed.
 
+(* F3 made precise for the repaired loop: when the loop ends by exhaustion the
+   stream is complete unless the flag was raised inside the LAST Markov level *)
+Lemma loop_finished_polling : forall sch pts t h acc om0 o,
+  o = loop true sch t h pts acc om0 -> finished o = true ->
+  saved_at o = None /\
+  ( (omen_saved o = om0 /\ out o = acc ++ full_stream pts) \/
+    (exists b1 m j, pts = b1 ++ [m] /\ markov m = true /\
+        omen_saved o = Some (pid m, j) /\ 1 <= j <= length (guesses m) /\
+        out o = acc ++ full_stream b1 ++ firstn j (guesses m)) ).
+Proof.
+  intros sch. induction pts as [|p rest IH]; intros t h acc om0 o Ho Hf.
+  - subst o. split; [reflexivity|]. left. split; [reflexivity|]. simpl. now rewrite app_nil_r.
+  - cbn [loop] in Ho. set (h1 := h_steps h (sch t)) in Ho.
+    destruct (quit_seen true h1).
+    + subst o. discriminate.
+    + destruct (markov p) eqn:M.
+      * destruct (emit_markov sch (S t) h1 (guesses p) 0) as [[[oo t'] i] h2] eqn:E.
+        pose proof (emit_markov_spec _ _ _ _ _ _ _ _ _ E) as S.
+        destruct i as [j|].
+        -- destruct S as (Hj1 & Hj2 & Hoo & Hx). rewrite Nat.sub_0_r in Hoo.
+           destruct rest as [|p' rest'].
+           ++ subst o. split; [reflexivity|]. right.
+              exists [], p, j. repeat split; auto; try lia. simpl. now rewrite Hoo.
+           ++ rewrite loop_true_exit in Ho by assumption. subst o. discriminate.
+        -- subst oo. destruct (IH _ _ _ _ o Ho Hf) as (Hsav & Hb). split; [assumption|].
+           destruct Hb as [[Hom Hout] | (b1 & m & j' & Hbe & Hm & Hom & Hj & Hout)].
+           ++ left. split; [assumption|]. rewrite Hout. unfold full_stream. simpl.
+              now rewrite <- app_assoc.
+           ++ right. exists (p :: b1), m, j'. repeat split; auto; try lia.
+              ** simpl. now rewrite Hbe.
+              ** rewrite Hout. unfold full_stream. simpl. now rewrite <- !app_assoc.
+      * destruct (emit_plain sch (S t) h1 (guesses p)) as [t' h2].
+        destruct (IH _ _ _ _ o Ho Hf) as (Hsav & Hb). split; [assumption|].
+        destruct Hb as [[Hom Hout] | (b1 & m & j' & Hbe & Hm & Hom & Hj & Hout)].
+        -- left. split; [assumption|]. rewrite Hout. unfold full_stream. simpl.
+           now rewrite <- app_assoc.
+        -- right. exists (p :: b1), m, j'. repeat split; auto; try lia.
+           ** simpl. now rewrite Hbe.
+           ** rewrite Hout. unfold full_stream. simpl. now rewrite <- !app_assoc.
+Qed.
+
+Theorem C12_finished_polling : forall sch pts o,
+  o = run_session true sch pts -> finished o = true ->
+  saved_at o = None /\
+  ( (omen_saved o = None /\ out o = full_stream pts) \/
+    (exists b1 m j, pts = b1 ++ [m] /\ markov m = true /\
+        omen_saved o = Some (pid m, j) /\ 1 <= j <= length (guesses m) /\
+        out o = full_stream b1 ++ firstn j (guesses m)) ).
+Proof.
+  intros sch pts o Ho Hf. unfold run_session in Ho.
+  exact (loop_finished_polling _ _ _ _ _ _ _ Ho Hf).
+Qed.
+
 (* the [cut_after] formulation: what each pre-terminal of [before] contributed
    is determined by the saved OMEN position alone (pids identify pre-terminals) *)
 Definition cut_after (om : option (nat * nat)) (p : pterm) : list nat :=
@@ -628,6 +681,14 @@ Lemma flat_map_ext_in : forall (A B : Type) (f g : A -> list B) l,
 Proof.
   induction l as [|a l IH]; intros H; simpl; [reflexivity|].
   rewrite H by now left. rewrite IH; [reflexivity|]. intros; apply H; now right.
+Qed.
+
+Lemma NoDup_app_l : forall (A : Type) (l l' : list A), NoDup (l ++ l') -> NoDup l.
+Proof.
+  induction l as [|a l IH]; intros l' H; [constructor|].
+  simpl in H. inversion H; subst. constructor.
+  - intro Hin. apply H2. apply in_or_app. now left.
+  - eapply IH; eauto.
 Qed.
 
 Theorem C12_quit_boundary_cut_after : forall sch pts o,
@@ -650,7 +711,7 @@ Proof.
       * apply flat_map_ext_in. intros x Hx. unfold cut_after.
         destruct (Nat.eqb (pid x) (pid m)) eqn:E; [|reflexivity].
         apply Nat.eqb_eq in E. exfalso.
-        rewrite Hpts, Hbe, !map_app in Hnd. apply NoDup_app_remove_r in Hnd.
+        rewrite Hpts, Hbe, !map_app in Hnd. apply NoDup_app_l in Hnd.
         apply NoDup_remove_2 in Hnd. apply Hnd. rewrite app_nil_r, <- E.
         now apply in_map.
       * simpl. now rewrite Nat.eqb_refl, app_nil_r.
@@ -670,7 +731,7 @@ Proof.
   vm_compute in Hout.
   destruct before as [|x1 [|x2 [|x3 before]]]; simpl in Hpts; inversion Hpts; subst;
     try (vm_compute in Hout; discriminate).
-  destruct before; discriminate.
+  all: try (destruct before; discriminate).
 Qed.
 
 (* for the code as found omen_saved is overwritten, so it does not determine
@@ -694,6 +755,7 @@ Print Assumptions C12_shape.
 Print Assumptions C12_quit_boundary.
 Print Assumptions C12_quit_boundary_polling.
 Print Assumptions C12_quit_boundary_cut_after.
+Print Assumptions C12_finished_polling.
 Print Assumptions C09_limit_exact.
 Print Assumptions C17_size_exact.
 Print Assumptions C17_size_whole_groups.
